@@ -1021,21 +1021,15 @@ PROFILES = {
     # of stateful operations in between, every leaf read back at the end
     # core + one stateless function that calls itself (a literal number of times)
     # lambdas inside lambdas (a closure created by a closure captures variables of every enclosing level); `_assign`: and assigns them
-    "nested": dict(lam_depth=3, depth=4),
-    "nested_assign": dict(lam_depth=3, depth=4, closure_assign=True),
-    "tupassign": dict(tuple_assign=True),
-    "tupassign_nr": dict(tuple_assign=True, rounding=False),
-    "g6": dict(lam_depth=3, depth=4, closure_assign=True, avoid_g6=False),
     "rec": dict(recursion=True),
-    "rec": dict(avoid_f3=True, recursion=True),
     # lambdas inside lambdas (a closure created by a closure captures variables of every enclosing level); `_assign`: and assigns them;
     # `escaping`: inner closures that leave the middle one (returned, in a tuple, handed to a higher-order closure — Gen.escaping_closures)
-    "nested": dict(avoid_f3=True, lam_depth=3, depth=4, escaping=True),
-    "nested_assign": dict(avoid_f3=True, lam_depth=3, depth=4, closure_assign=True, escaping=True),
-    "nested_nr": dict(avoid_f3=True, lam_depth=3, depth=4, escaping=True, rounding=False),
-    "nested_assign_nr": dict(avoid_f3=True, lam_depth=3, depth=4, closure_assign=True, escaping=True, rounding=False),
-    "tupassign": dict(avoid_f3=True, tuple_assign=True),
-    "tupassign_nr": dict(avoid_f3=True, tuple_assign=True, rounding=False),
+    "nested": dict(lam_depth=3, depth=4, escaping=True),
+    "nested_assign": dict(lam_depth=3, depth=4, closure_assign=True, escaping=True),
+    "nested_nr": dict(lam_depth=3, depth=4, escaping=True, rounding=False),
+    "nested_assign_nr": dict(lam_depth=3, depth=4, closure_assign=True, escaping=True, rounding=False),
+    "tupassign": dict(tuple_assign=True),
+    "tupassign_nr": dict(tuple_assign=True, rounding=False),
     "aggr": dict(gen="aggr"),
     "aggr_nofn": dict(gen="aggr", fn_fields=False),
 }
